@@ -998,6 +998,57 @@ def _run_ss(sh, params):
                 _sampled_output(sh, S, h, method, Zt, want[4], pert, r, case, tags, lti)
                 # ---- d2c one-way (input: pyYeti's own discrete model) + round trip ------
                 _d2c_checks(sh, S, h, method, Zp, Zt, tolc, r, case, tags, i)
+        _conversion_history(sh, ssmodel, S, cont, r, base, tags0)
+
+
+def _conversion_history(sh, ssmodel, S, cont, r, base, tags0):
+    """Several conversions on ONE model object (repeats, every order of methods, the
+    same and another step): each result must equal, bit for bit, the conversion of a
+    fresh object, and no result handed out earlier -- nor the continuous model -- may
+    change afterwards (hidden state shared between calls would show up only here)."""
+    import numpy as np
+    A, B, C, D, h = S["A"], S["B"], S["C"], S["D"], S["h"]
+    snap0 = [np.array(x, copy=True) for x in (cont.A, cont.B, cont.C, cont.D)]
+    seq = [METHODS[int(k)] for k in r.integers(0, len(METHODS), int(r.integers(3, 7)))]
+    if r.random() < 0.5:
+        seq = ["zoha"] + seq            # the one method that scales an integral in place
+    held = []
+    for step, method in enumerate(seq):
+        hh = h if r.random() < 0.8 else h / 2
+        case = dict(base, history=seq, step=step, method=method, hh=hh)
+        tags = dict(tags0, method=method, history=True)
+        try:
+            with warnings.catch_warnings():
+                warnings.simplefilter("ignore")
+                Z1 = cont.c2d(hh, method)
+                Z2 = ssmodel.SSModel(A.copy(), B.copy(), C.copy(), D.copy()).c2d(hh, method)
+        except Exception as e:
+            sh.violation("exception:c2d", case, {"exc": repr(e)[:300]},
+                         dict(tags, exc_type=type(e).__name__))
+            return
+        got = [np.asarray(x) for x in (Z1.A, Z1.B, Z1.C, Z1.D)]
+        want = [np.asarray(x) for x in (Z2.A, Z2.B, Z2.C, Z2.D)]
+        sh.count("mon:c2d-history-vs-fresh")
+        bad = [nm for nm, g, w in zip("ABCD", got, want)
+               if g.shape != w.shape or g.tobytes() != w.tobytes()]
+        if bad:
+            sh.violation("c2d-history-vs-fresh", case,
+                         {"matrices": bad,
+                          "maxdiff": float(max(np.abs(g - w).max() for g, w in
+                                               zip(got, want) if g.shape == w.shape))},
+                         tags)
+            return
+        held.append((case, Z1, [g.copy() for g in got]))
+    sh.count("mon:c2d-history-unmutated")
+    for case, Z1, copies in held:
+        now = [np.asarray(x) for x in (Z1.A, Z1.B, Z1.C, Z1.D)]
+        if any(n.tobytes() != c.tobytes() for n, c in zip(now, copies)):
+            sh.violation("c2d-history-unmutated", case, {"which": "earlier result"}, tags0)
+            return
+    now = [np.asarray(x) for x in (cont.A, cont.B, cont.C, cont.D)]
+    if any(n.tobytes() != c.tobytes() for n, c in zip(now, snap0)):
+        sh.violation("c2d-history-unmutated", base, {"which": "continuous model"}, tags0)
+    sh.count("cell:c2d-history:" + ("with-repeat" if len(set(seq)) < len(seq) else "no-repeat"))
 
 
 def _sampled_output(sh, S, h, method, Zt, shift, pert, r, case, tags, lti):
@@ -1290,6 +1341,11 @@ def finalize(agg, tier):
     for m in ("zoh", "zoha", "foh", "tustin", "tustin:prewarp"):
         if not c.get("method:" + m):
             why.append(f"discretisation method {m} never executed")
+    for m in ("c2d-history-vs-fresh", "c2d-history-unmutated"):
+        if not c.get("mon:" + m):
+            why.append(f"monitor {m} never evaluated")
+    if not c.get("cell:c2d-history:with-repeat"):
+        why.append("no conversion history with a repeated method")
     for side in ("above", "below"):
         if not c.get(f"ssnorm:{side}-switch"):
             why.append(f"no c2d system {side} the getEPQ norm switch")
